@@ -45,7 +45,7 @@ CHECKS = {
              text="Real fork()ed processes sharing one opened RandomLineAccessFile / MemoryMappedRandomLineAccessFile / MapAccessFile (5 lines x 6 kB): every interleaving of open/close/seek/"
                   "readline of parent + 1 child (all), parent + 2 children (<=2 quick / <=3 preemptions), grandchildren of an idle and of a reading child, 3-read sequences (thorough); every read of every process must equal the reference line."),
  "C06": dict(engine="seqmc", technique="explicit-state exploration of the real object vs a nondeterministic ordered-dict reference (whole reachable graph per capacity)",
-             text="Whole reachable state graph of the real LRUCache for capacities 1-3 (quick) / 1-4, keys {0..c}, 2 values, under the full MutableMapping menu (store, lookup, delete, in, len, "
+             text="Whole reachable state graph of the real LRUCache for capacities 1-3 (quick) / 1-4, keys {0..c}, 2 values, under the full MutableMapping menu, plus the whole graph for capacity 4 (quick) / 4-5 under the core of the menu (store, lookup, delete, in, pop, popitem, iteration, items: recency lists long enough for link surgery in the middle); full menu = (store, lookup, delete, in, len, "
                   "views, get, pop, popitem, clear, update with dicts and pair lists, setdefault, ==, two look-ups back to back, an iteration left open while look-ups / nested "
                   "iterations go on); a second cache alive all the time must stay untouched; reference = set of possible ordered dicts (latitude for `in`, popitem, view look-ups); every library call under a "
                   "deterministic step budget (termination); internal dict/list agreement and link walk after every transition.", ref="5/C06", note=SEQ_NOTE),
